@@ -14,6 +14,9 @@ CONSTANTS
   MaxDup = 1
   MaxPopCalls = 2
   MaxMidFlush = 0
+  Eagers = {FALSE, TRUE}
+  Holds = {0}
+  HoldFors = {0}
   Algo = "ring"
   Impl = "fixABC"
   Sampling = FALSE
